@@ -159,6 +159,12 @@ def async_wrapper_programs(tier):
             item = Op(row.op, [O(t) for t in row.operands])
             for rest, fk, labels in inner_chains(row.out, n - 1):
                 out.append(([item] + rest, fk, [row.label] + labels))
+        # inside a wrapper of an async macro `??` is still `.inspect(f)`: on a wrapped Option / Result that is the value's OWN inspect,
+        # whose callback sees the payload (not the whole value)
+        if kind in (OPT, RES):
+            item = Op("??", [O('|v: &i32| { ev("0.i.q%d", v); }' % n)])
+            for rest, fk, labels in inner_chains(kind, n - 1):
+                out.append(([item] + rest, fk, ["inspect_payload"] + labels))
         return out
 
     n_in = 1 if tier == "quick" else 2
